@@ -225,55 +225,55 @@ impl Hasher for RecHasher {
 
     fn write(&mut self, bytes: &[u8]) {
         let b: Vec<String> = bytes.iter().map(|x| x.to_string()).collect();
-        self.feed.push(format!("[\"bytes\",[{}]]", b.join(",")));
+        self.feed.push(format!("\"bytes:{}\"", b.join(".")));
     }
 
     fn write_u8(&mut self, i: u8) {
-        self.feed.push(format!("[\"u8\",{}]", i));
+        self.feed.push(format!("\"u8:{}\"", i));
     }
 
     fn write_u16(&mut self, i: u16) {
-        self.feed.push(format!("[\"u16\",{}]", i));
+        self.feed.push(format!("\"u16:{}\"", i));
     }
 
     fn write_u32(&mut self, i: u32) {
-        self.feed.push(format!("[\"u32\",{}]", i));
+        self.feed.push(format!("\"u32:{}\"", i));
     }
 
     fn write_u64(&mut self, i: u64) {
-        self.feed.push(format!("[\"u64\",\"{}\"]", i));
+        self.feed.push(format!("\"u64:{}\"", i));
     }
 
     fn write_u128(&mut self, i: u128) {
-        self.feed.push(format!("[\"u128\",\"{}\"]", i));
+        self.feed.push(format!("\"u128:{}\"", i));
     }
 
     fn write_usize(&mut self, i: usize) {
-        self.feed.push(format!("[\"usize\",\"{}\"]", i));
+        self.feed.push(format!("\"usize:{}\"", i));
     }
 
     fn write_i8(&mut self, i: i8) {
-        self.feed.push(format!("[\"i8\",{}]", i));
+        self.feed.push(format!("\"i8:{}\"", i));
     }
 
     fn write_i16(&mut self, i: i16) {
-        self.feed.push(format!("[\"i16\",{}]", i));
+        self.feed.push(format!("\"i16:{}\"", i));
     }
 
     fn write_i32(&mut self, i: i32) {
-        self.feed.push(format!("[\"i32\",{}]", i));
+        self.feed.push(format!("\"i32:{}\"", i));
     }
 
     fn write_i64(&mut self, i: i64) {
-        self.feed.push(format!("[\"i64\",\"{}\"]", i));
+        self.feed.push(format!("\"i64:{}\"", i));
     }
 
     fn write_i128(&mut self, i: i128) {
-        self.feed.push(format!("[\"i128\",\"{}\"]", i));
+        self.feed.push(format!("\"i128:{}\"", i));
     }
 
     fn write_isize(&mut self, i: isize) {
-        self.feed.push(format!("[\"isize\",\"{}\"]", i));
+        self.feed.push(format!("\"isize:{}\"", i));
     }
 }
 
@@ -383,6 +383,101 @@ pub fn run_eq<T: Case + PartialEq, W: Write>(out: &mut Out<W>, dom: &[i8], pairs
             out.rec(&body);
         }
     }
+}
+
+/// `a.cmp(&b)` for every ordered pair of values
+pub fn run_cmp<T: Case + Ord, W: Write>(out: &mut Out<W>, dom: &[i8], pairs: &dyn Fn(&AVal, &AVal) -> bool) {
+    let vals = all_values::<T>(dom);
+    for a in vals.iter() {
+        for b in vals.iter() {
+            if !pairs(a, b) {
+                continue;
+            }
+            let x = T::make(0, a.v, &a.f);
+            let y = T::make(1, b.v, &b.f);
+            let r = guarded(|| x.cmp(&y));
+            let calls = calls_json();
+            let body = match r {
+                Ok(r) => format!(
+                    "\"ev\":\"op\",\"t\":{},\"op\":\"cmp\",\"a\":{},\"b\":{},\"calls\":{},\"ret\":\"{}\"",
+                    T::ID, a.json(), b.json(), calls, ord_name(r)
+                ),
+                _ => format!(
+                    "\"ev\":\"op\",\"t\":{},\"op\":\"panic\",\"in\":\"cmp\",\"a\":{},\"b\":{}",
+                    T::ID, a.json(), b.json()
+                ),
+            };
+            out.rec(&body);
+        }
+    }
+}
+
+/// `a.partial_cmp(&b)` for every ordered pair of values
+pub fn run_pcmp<T: Case + PartialOrd, W: Write>(out: &mut Out<W>, dom: &[i8], pairs: &dyn Fn(&AVal, &AVal) -> bool) {
+    let vals = all_values::<T>(dom);
+    for a in vals.iter() {
+        for b in vals.iter() {
+            if !pairs(a, b) {
+                continue;
+            }
+            let x = T::make(0, a.v, &a.f);
+            let y = T::make(1, b.v, &b.f);
+            let r = guarded(|| x.partial_cmp(&y));
+            let calls = calls_json();
+            let body = match r {
+                Ok(r) => format!(
+                    "\"ev\":\"op\",\"t\":{},\"op\":\"partial_cmp\",\"a\":{},\"b\":{},\"calls\":{},\"ret\":\"{}\"",
+                    T::ID, a.json(), b.json(), calls, pord_name(r)
+                ),
+                _ => format!(
+                    "\"ev\":\"op\",\"t\":{},\"op\":\"panic\",\"in\":\"partial_cmp\",\"a\":{},\"b\":{}",
+                    T::ID, a.json(), b.json()
+                ),
+            };
+            out.rec(&body);
+        }
+    }
+}
+
+/// one `hashes` record per type: every value hashed into a fresh recording hasher, plus all `==` results
+pub fn run_hashes<T: Case + Hash + PartialEq, W: Write>(out: &mut Out<W>, dom: &[i8]) {
+    let vals = all_values::<T>(dom);
+    let mut obs = Vec::new();
+    let mut panicked = false;
+    for a in vals.iter() {
+        let x = T::make(0, a.v, &a.f);
+        let mut h = RecHasher::default();
+        let r = guarded(|| x.hash(&mut h));
+        let calls = calls_json();
+        if r.is_err() {
+            panicked = true;
+        }
+        obs.push(format!("{{\"a\":{},\"calls\":{},\"feed\":[{}]}}", a.json(), calls, h.feed.join(",")));
+    }
+    let mut eqs = Vec::new();
+    for (i, a) in vals.iter().enumerate() {
+        for (j, b) in vals.iter().enumerate() {
+            let x = T::make(0, a.v, &a.f);
+            let y = T::make(1, b.v, &b.f);
+            match guarded(|| x == y) {
+                Ok(r) => eqs.push(format!("[{},{},{}]", i + 1, j + 1, r)),
+                Err(_) => panicked = true,
+            }
+            log_take();
+        }
+    }
+    let op = if panicked { "panic" } else { "hashes" };
+    out.rec(&format!(
+        "\"ev\":\"op\",\"t\":{},\"op\":\"{}\",\"obs\":[{}],\"eqs\":[{}]",
+        T::ID, op, obs.join(","), eqs.join(",")
+    ));
+}
+
+/// the value domain extended with the incomparable value
+pub fn with_nan(dom: &[i8]) -> Vec<i8> {
+    let mut d = dom.to_vec();
+    d.push(NAN);
+    d
 }
 
 pub fn all_pairs(_: &AVal, _: &AVal) -> bool {
